@@ -63,3 +63,107 @@ package corazawaf
 //@     invariant forall j int :: 0 <= j && j <= rangeindex ==> br.readers[j].br == nil
 //@     invariant br.length == 0 && br.buffer.content == "" && br.writer == old(br.writer) && br.buffer == old(br.buffer)
 //@     invariant liveTmp == old(liveTmp) && removeTried == old(removeTried)
+
+// ---------------------------------------------------------------- phases, interruption, engine modes (C02, C08)
+
+// evalCount[p] = how many times the rules of phase p have been evaluated for this transaction.
+// It is incremented by RuleGroup.Eval and by nothing else (definitional ghost effect of Eval).
+//@ ghost field Transaction evalCount IntIntMap
+
+//@ define PhaseInv(tx *Transaction) bool := forall p int :: 1 <= p && p <= 4 ==>
+//@     0 <= get(tx.evalCount, p) && get(tx.evalCount, p) <= 1 && (tx.lastPhase < p ==> get(tx.evalCount, p) == 0)
+
+//@ func (*Transaction).IsInterrupted props C02
+//@   modifies nothing
+//@   ensures result == (tx.interruption != nil)
+
+//@ func (*Transaction).IsRuleEngineOff props C02
+//@   modifies nothing
+//@   ensures result == (tx.RuleEngine == types.RuleEngineOff)
+
+//@ func (*Transaction).Interrupt props C02
+//@   modifies tx.interruption, tx.detectionOnlyInterruption
+//@   ensures final: old(tx.interruption) != nil ==> tx.interruption == old(tx.interruption)
+//@   ensures on: tx.RuleEngine == types.RuleEngineOn && old(tx.interruption) == nil ==> tx.interruption == interruption
+//@   ensures notOn: tx.RuleEngine != types.RuleEngineOn ==> tx.interruption == old(tx.interruption)
+//@   ensures wouldBe: tx.RuleEngine == types.RuleEngineDetectionOnly ==>
+//@       tx.detectionOnlyInterruption == ite(old(tx.detectionOnlyInterruption) == nil, interruption, old(tx.detectionOnlyInterruption))
+//@   ensures tx.RuleEngine != types.RuleEngineDetectionOnly ==> tx.detectionOnlyInterruption == old(tx.detectionOnlyInterruption)
+
+//@ func (*Transaction).Allow props C08
+//@   modifies tx.AllowType
+//@   ensures tx.RuleEngine == types.RuleEngineOn ==> tx.AllowType == allowType
+//@   ensures tx.RuleEngine != types.RuleEngineOn ==> tx.AllowType == old(tx.AllowType)
+
+// A rule is evaluated only while the transaction is not interrupted, except in the logging phase.
+//@ func (*Rule).Evaluate props C02
+//@   requires notInterrupted: typeof(tx) == tag("*Transaction") ==> (payload(tx, "*Transaction").interruption == nil || phase == types.PhaseLogging)
+//@   modifies inferred
+
+//@ func (*Transaction).DebugLogger props C07
+//@   modifies nothing
+//@   ensures result == tx.debugLogger
+
+//@ func (*RuleGroup).Eval props C02,C08
+//@   requires tx != nil
+//@   modifies inferred, tx.evalCount
+//@   ensures def_counts: tx.evalCount == put(old(tx.evalCount), phase, get(old(tx.evalCount), phase) + 1)
+//@   ensures tx.lastPhase == phase
+//@   ensures skipReset: tx.Skip == 0
+//@   ensures skipAfterReset: tx.SkipAfter == ""
+//@   ensures allowPhaseReset: tx.AllowType != corazatypes.AllowTypePhase
+//@   ensures result == (tx.interruption != nil)
+//@   loop 2
+//@     invariant tx.lastPhase == phase
+
+//@ func (*Transaction).ProcessRequestHeaders props C02
+//@   requires tx.WAF != nil && PhaseInv(tx)
+//@   modifies inferred, tx.evalCount
+//@   ensures PhaseInv(tx)
+//@   ensures off: old(tx.RuleEngine) == types.RuleEngineOff ==> result == nil && tx.evalCount == old(tx.evalCount)
+//@   ensures once: old(tx.lastPhase) >= 1 ==> tx.evalCount == old(tx.evalCount)
+//@   ensures final: old(tx.interruption) != nil ==> tx.evalCount == old(tx.evalCount) && (old(tx.RuleEngine) != types.RuleEngineOff ==> result == old(tx.interruption))
+
+//@ func (*Transaction).IsDetectionOnlyInterrupted props C02,C19
+//@   modifies nothing
+//@   ensures result == (tx.detectionOnlyInterruption != nil)
+
+//@ func (*Transaction).ProcessRequestBody props C02
+//@   requires tx.WAF != nil && PhaseInv(tx)
+//@   modifies inferred, tx.evalCount
+//@   ensures PhaseInv(tx)
+//@   ensures off: old(tx.RuleEngine) == types.RuleEngineOff ==> result0 == nil && tx.evalCount == old(tx.evalCount)
+//@   ensures once: old(tx.lastPhase) != 1 ==> tx.evalCount == old(tx.evalCount)
+//@   ensures final: old(tx.interruption) != nil ==> tx.evalCount == old(tx.evalCount) && (old(tx.RuleEngine) != types.RuleEngineOff ==> result0 == old(tx.interruption))
+//@   ensures only2: forall p int :: p != 2 ==> get(tx.evalCount, p) == get(old(tx.evalCount), p)
+
+//@ func (*Transaction).ProcessResponseHeaders props C02
+//@   requires tx.WAF != nil && PhaseInv(tx)
+//@   modifies inferred, tx.evalCount
+//@   ensures PhaseInv(tx)
+//@   ensures off: old(tx.RuleEngine) == types.RuleEngineOff ==> result == nil && tx.evalCount == old(tx.evalCount)
+//@   ensures once: old(tx.lastPhase) >= 3 ==> tx.evalCount == old(tx.evalCount)
+//@   ensures final: old(tx.interruption) != nil ==> tx.evalCount == old(tx.evalCount) && (old(tx.RuleEngine) != types.RuleEngineOff ==> result == old(tx.interruption))
+//@   ensures only3: forall p int :: p != 3 ==> get(tx.evalCount, p) == get(old(tx.evalCount), p)
+
+//@ func (*Transaction).ProcessResponseBody props C02
+//@   requires tx.WAF != nil && PhaseInv(tx)
+//@   modifies inferred, tx.evalCount
+//@   ensures PhaseInv(tx)
+//@   ensures off: old(tx.RuleEngine) == types.RuleEngineOff ==> result0 == nil && tx.evalCount == old(tx.evalCount)
+//@   ensures once: old(tx.lastPhase) != 3 ==> tx.evalCount == old(tx.evalCount)
+//@   ensures final: old(tx.interruption) != nil ==> tx.evalCount == old(tx.evalCount) && (old(tx.RuleEngine) != types.RuleEngineOff ==> result0 == old(tx.interruption))
+//@   ensures only4: forall p int :: p != 4 ==> get(tx.evalCount, p) == get(old(tx.evalCount), p)
+
+// Audit decision table (C19): Off -> no record, On -> exactly one, RelevantOnly with a status pattern -> one iff the
+// status (real interruption's, else the would-be one's, else the response status) matches.
+//@ func (*Transaction).ProcessLogging props C02,C19
+//@   requires tx.WAF != nil && PhaseInv(tx)
+//@   modifies inferred, tx.evalCount, auditWrites
+//@   ensures PhaseInv(tx)
+//@   ensures engineOff: old(tx.RuleEngine) == types.RuleEngineOff ==> tx.evalCount == old(tx.evalCount)
+//@   ensures loggingAlways: old(tx.RuleEngine) != types.RuleEngineOff ==> get(tx.evalCount, 5) == get(old(tx.evalCount), 5) + 1
+//@   ensures only5: forall p int :: p != 5 ==> get(tx.evalCount, p) == get(old(tx.evalCount), p)
+//@   ensures auditOff: tx.AuditEngine == types.AuditEngineOff ==> auditWrites == old(auditWrites)
+//@   ensures auditOn: tx.AuditEngine == types.AuditEngineOn ==> auditWrites == old(auditWrites) + 1
+//@   ensures atMostOne: auditWrites == old(auditWrites) || auditWrites == old(auditWrites) + 1
